@@ -92,7 +92,9 @@ class MatlabDefCompiler:
         return name
 
     def generate_field(self, top_field: str, name: str, value: Any) -> str:
-        name = name.replace(f"{top_field}_", "", 1)  # strip top_field from fieldname
+        # strip top_field from the start of the fieldname (never from the middle of a word)
+        if name.startswith(f"{top_field}_"):
+            name = name[len(top_field) + 1 :]
         name = self.sanitize_name(name)
         return f"{self.struct_name}.{top_field}.{name} = {value};\n"
 
